@@ -88,6 +88,12 @@ def run_case(ctx, cost, labels, blank, tag):
     desc = lambda: "blank=%d labels=%r cost=\n%s" % (blank, labels, np.array2string(cost, max_line_width=200))
     has_blank = blank in labels
     struct_ok = (not has_blank) and feasible(T, labels)
+    if T >= 60:
+        ctx.event("realistic_length")
+        if len(labels) >= 33:
+            ctx.event("more_than_32_labels")
+        if float(cost.min(axis=1).max()) <= 1.0:
+            ctx.event("text_written_unevenly_along_the_line")
     small = C ** T <= 20000
     if struct_ok:
         opt = dp_min(cost, labels, blank)
@@ -204,8 +210,12 @@ def strat():
             cost = cost.astype(np.float32).astype(np.float64)      # float32-representable values: also run as float32 below
         nonblank = [c for c in range(C) if c != blank]
         L = draw(st.integers(1, T + 2)) if draw(st.integers(0, 3)) == 0 else draw(st.integers(1, max(1, T - 1)))
+        planted = big and draw(st.booleans())
         if big:
             L = draw(st.integers(20, max(21, T // 2)))
+        if planted:
+            T = cost.shape[0]
+            L = draw(st.integers(20, max(21, T // 4)))      # a short text on a long line
         labels = []
         for i in range(L):
             if labels and draw(st.integers(0, 3)) == 0:
@@ -214,6 +224,20 @@ def strat():
                 labels.append(draw(st.sampled_from(nonblank)))
         if draw(st.integers(0, 11)) == 0:
             labels[draw(st.integers(0, L - 1))] = blank
+        if planted:
+            # text written unevenly along the line: all the labels sit in one part of the frames (start, end or
+            # middle), the rest is blank - the cheapest alignment runs far from the diagonal of the trellis
+            where = draw(st.sampled_from(["start", "end", "middle"]))
+            span = max(2 * L, int(T * draw(st.sampled_from([0.0, 0.35, 0.5, 0.7]))))
+            span = min(span, T)
+            off = {"start": 0, "end": T - span, "middle": (T - span) // 2}[where]
+            slots = sorted(rs_big.choice(span // 2, size=min(L, span // 2), replace=False).tolist())
+            if len(slots) == L:
+                cost = rs_big.uniform(6, 20, size=(T, C))
+                cost[:, blank] = rs_big.uniform(0, 1, size=T)
+                for lab, sl in zip(labels, slots):
+                    cost[off + 2 * sl, :] = rs_big.uniform(6, 20, size=C)
+                    cost[off + 2 * sl, lab] = rs_big.uniform(0, 1)
         return cost, labels, blank
     return case()
 
